@@ -220,6 +220,8 @@ def check(ctx):
                 v = x.args[0] if x.args else None
                 rest = isinstance(v, ast.Constant) and ((x.func.value.attr.startswith("spike") and v.value is False) or (not x.func.value.attr.startswith("spike") and v.value == 0))
                 ctx.ob("C04.e", f"{cname}.clear: {x.func.value.attr} reset to the resting value", rest, ast.unparse(x), P.loc(clr, x), x)
+    # ---------------- (f) the delay / step-time setters every synapse inherits reach its records (tables shared with C14)
+    ctx.import_clauses("C14", {"C14.t", "C14.c"}, "C04.f", pick=lambda s: s.startswith(("DelayedMixin", "BatchMixin")), minimum=4)
     ctx.assume("RecordTensor.select/peek/push behave as decided in C01/C02")
 
 
